@@ -485,8 +485,104 @@ def check_base(spec, acc, tier, only=None, report=True):
     return fails
 
 
+BIG_TREES = ["(a:0.1,(b:0.2,(c:0.05,(d:0.3,(e:0.1,f:0.2):0.1):0.05):0.2):0.1);",
+             "((a:0.1,b:0.2):0.1,(c:0.05,(d:0.3,(e:0.1,f:0.2):0.1):0.05):0.2,g:0.3);"]
+
+
+def check_big(spec, acc):
+    """boundary sizes: clades with more than 256 (and, thorough, more than 65 536) distinct site patterns, below a node
+    whose other child is a tip; relations only (children written in the opposite order, sequences and columns in the
+    opposite order, the two halves of the alignment adding up), so no oracle is needed and the alignment can be long"""
+    from cogent3 import get_model, make_aligned_seqs, make_tree
+
+    if spec.get("codon"):
+        return check_codon_nonstates(spec, acc)
+    nwk = BIG_TREES[spec["tree"]]
+    tips = make_tree(nwk).get_tip_names()
+    n = len(tips)
+    # columns: a stride through all of ACGT^n that visits > 256 distinct patterns of every clade of >= 5 tips
+    total = 4 ** n
+    ncols = spec["ncols"]
+    step = 7 if total % 7 else 11
+    idx = [(i * step) % total for i in range(ncols)]
+    cols = ["".join("ACGT"[(k >> (2 * p)) & 3] for p in range(n)) for k in idx]
+
+    def lnl(newick, order=None, columns=None):
+        columns = cols if columns is None else columns
+        names = order or tips
+        data = {t: "".join(c[tips.index(t)] for c in columns) for t in names}
+        lf = get_model(spec["model"]).make_likelihood_function(make_tree(newick))
+        lf.set_motif_probs({"A": 0.1, "C": 0.2, "G": 0.3, "T": 0.4})  # before the alignment: not counted from the data
+        lf.set_alignment(make_aligned_seqs(data, moltype="dna"))
+        for p in lf.model.get_param_list():
+            lf.set_param_rule(p, value=2.5, is_constant=True)
+        return float(lf.lnL)
+
+    def reverse_children(t):
+        t = make_tree(t)
+        for node in t.traverse(self_before=True, self_after=False):
+            node.children.reverse()
+        return t.get_newick(with_distances=True, with_node_names=False)
+
+    case = {"base": {"big": True, **spec}}
+    acc.case(case)
+    try:
+        base = lnl(nwk)
+        rel = {"children of every node written in the opposite order": lnl(reverse_children(nwk)),
+               "sequences given in the opposite order": lnl(nwk, order=tips[::-1]),
+               "columns in the opposite order": lnl(nwk, columns=cols[::-1]),
+               "the two halves of the alignment added up": lnl(nwk, columns=cols[: ncols // 2]) + lnl(nwk, columns=cols[ncols // 2:])}
+    except Exception as e:  # noqa: BLE001
+        acc.fail(f"long alignment raised {type(e).__name__}", case, {"error": str(e)[:300]})
+        return
+    acc.outcome(("big", round(base, 3)))
+    for what, v in rel.items():
+        if not abs(v - base) <= 1e-9 * abs(base):
+            acc.fail(f"lnL of a long alignment (clades with > 256 site patterns) changes with {what} [{spec['model']}]", case, {"got": v, "want": base, "diff": v - base})
+    acc.sample({"big": True, "tree": nwk, "columns": ncols, "model": spec["model"]}, "big")
+
+
+def check_codon_nonstates(spec, acc):
+    """word models: several different motifs that are not states of the model (an all-gap word, partly degenerate words) in
+    one sequence; each keeps its own profile whatever comes first (columns reversed / rotated, halves adding up, tripling)"""
+    from cogent3 import get_model, make_aligned_seqs, make_tree
+
+    nwk = "(a:0.1,b:0.2,c:0.3);"
+    words = ["ATG", "GCC", "---", "GCN", "GAR", "TTT", "NNN", "AC-", "CTG", "AAR"]
+    ncol = 20
+    cols = [[words[(i * k + j) % len(words)] for j, k in enumerate((1, 3, 7))] for i in range(ncol)]
+
+    def lnl(columns):
+        data = {t: "".join(c[i] for c in columns) for i, t in enumerate("abc")}
+        lf = get_model(spec["model"]).make_likelihood_function(make_tree(nwk))
+        lf.set_alignment(make_aligned_seqs(data, moltype="dna"))
+        lf.set_motif_probs({b: 0.25 for b in "ACGT"})
+        for p in lf.model.get_param_list():
+            lf.set_param_rule(p, value=1.7, is_constant=True)
+        return float(lf.lnL)
+
+    case = {"base": {"big": True, **spec}}
+    acc.case(case)
+    try:
+        base = lnl(cols)
+        rel = {"columns in the opposite order": (lnl(cols[::-1]), base),
+               "columns rotated": (lnl(cols[7:] + cols[:7]), base),
+               "the two halves added up": (lnl(cols[: ncol // 2]) + lnl(cols[ncol // 2:]), base),
+               "every column three times": (lnl([c for c in cols for _ in range(3)]), 3 * base)}
+    except Exception as e:  # noqa: BLE001
+        acc.fail(f"alignment with several non-state words raised {type(e).__name__} [{spec['model']}]", case, {"error": str(e)[:300]})
+        return
+    acc.outcome(("codon-nonstates", round(base, 3)))
+    for what, (v, want) in rel.items():
+        if not abs(v - want) <= 1e-9 * abs(want):
+            acc.fail(f"lnL of an alignment with several kinds of non-state words changes with {what} [{spec['model']}]", case, {"got": v, "want": want})
+    acc.sample({"non-state words": words, "model": spec["model"]}, "big-codon")
+
+
 def shards(tier, seed):
-    out = []
+    out = [{"big": True, "codon": True, "model": m, "tier": tier} for m in ("MG94HKY", "MG94GTR")]
+    out += [{"big": True, "model": m, "tree": t, "ncols": 1500 if tier == "quick" else 20000, "tier": tier}
+           for m in ("HKY85", "GN") for t in (0, 1)]
     order = F.CODON_MODELS + F.PROTEIN_MODELS + [m for m in F.MODELS if m not in F.CODON_MODELS + F.PROTEIN_MODELS]
     for name in order:
         n = len(base_problems(name, tier))
@@ -498,6 +594,9 @@ def shards(tier, seed):
 
 
 def run_shard(spec, acc):
+    if spec.get("big"):
+        check_big(spec, acc)
+        return
     problems = base_problems(spec["model"], spec["tier"])
     for i in spec["bases"]:
         base = problems[i]
@@ -509,6 +608,10 @@ def run_shard(spec, acc):
 def replay(case):
     from vf.kernel.runner import Acc
 
+    if case["base"].get("big"):
+        acc = Acc()
+        check_big({k: v for k, v in case["base"].items()}, acc)
+        return [(sig, rec["cases"][0]["detail"]) for sig, rec in acc.failures.items()]
     return check_base(case["base"], Acc(), "quick", only=case.get("transform"), report=False)
 
 
